@@ -246,10 +246,10 @@ def evaluate(case):
         def may_show(o):
             """commands that may legitimately have an entry under this vector"""
             if o["k"] in ("attr", "member") and id(o) in hidden_members:
-                # inside the region of the known finding P10 the leaked class stack shows documented members of hidden
-                # classes (reported by clause (c) as member-of-hidden-class-shown); their entries are theirs, not the
-                # undocumented namesake's
-                return bool(o.get("doc")) and region
+                # inside the region of the known finding P10 the leaked class stack shows members of hidden classes -
+                # documented ones and undocumented ones whose own flag is on (reported by clause (c) as
+                # member-of-hidden-class-shown); their entries are theirs, not those of a namesake whose flag is off
+                return region and (bool(o.get("doc")) or flags[flag_kind(o)])
             ko = flag_kind(o)
             return o.get("doc") is not None or ko is None or flags[ko]
 
@@ -260,6 +260,9 @@ def evaluate(case):
         for it, _, par in all_items:
             k = flag_kind(it)
             if k and it.get("doc") is None and not flags[k]:
+                if region and it["k"] in ("attr", "member") and \
+                        sum(1 for o, _, _ in all_items if o["k"] in ("attr", "member") and o["name"] == it["name"]) > 1:
+                    continue      # inside the P10 region entries of same-named members cannot be told apart (the leak moves them)
                 hits = [n for n, _ in nodes1 if named_after(n, it["name"])]
                 if k in ("ct_add_test", "ct_add_section", "add_test"):
                     # the implementing definition of a hidden test may legitimately show up as an ordinary
